@@ -1,5 +1,5 @@
 # C31 -- node access levels are enforced for value reads and writes.
-# spec/ServerCore (InvAccess): TLC proves the contract on the access model (7 x 7 level classes
+# spec/ServerCore (InvAccess): TLC proves the contract on the access model (8 x 8 level classes
 # incl. missing / wrongly typed attributes), shows that ignoring the level on write or read
 # violates it, and generates every read/write script of the bounded length for every class.
 # The scripts run against the real server through a raw client; the recorded answers and the
@@ -13,15 +13,18 @@ import servercore_common as sc
 def body(run):
     q = run.quick()
     sc.core_check(
-        run, "C31", run.pick("ServerCoreGen_access_q.cfg", "ServerCoreGen_access_t.cfg"),
+        run, "C31", [(run.pick("ServerCoreGen_access_q.cfg", "ServerCoreGen_access_t.cfg"), None, None),
+                     # histories in which the application changes the levels at run time (seeded simulation)
+                     ("ServerCoreGen_access_dyn.cfg", run.pick(25, 400), 6)],
         mc_cfgs=[("ServerCore_mc_access.cfg", "contract: InvAccess over all level classes and read/write histories")],
         dev_cfgs=[("ServerCore_dev_write-ignores-access.cfg", "deviation demo: write ignores the access level"),
                   ("ServerCore_dev_read-ignores-access.cfg", "deviation demo: read ignores the access level")])
     run.cov["rule"] = ("one script per (AccessLevel class, UserAccessLevel class, read/write sequence); class = both level "
                        "classes x sequence; exhaustive up to the length bound (2 quick / 3 thorough requests)")
     run.assumptions += [
-        "levels: missing, wrong Go type (uint32), 0, 1, 2, 3, 7; values are int32; one node per class pair",
-        "for missing or wrongly typed attributes the outcome is left open (property is silent)",
+        "levels: missing, wrong Go type (uint32), null variant, 0, 1, 2, 3, 7; values are int32; one node per class pair",
+        "a missing attribute restricts nothing; a present attribute that is not a byte (wrong type, null) lacks both bits",
+        "levels are also changed at run time through Node.SetAttribute (application API) between requests",
         "a refused request must leave the stored value unchanged (checked through a privileged in-process read)",
     ]
 
